@@ -66,6 +66,8 @@ func runSolver(ctx context.Context, sp solverSpec, file string, opts solveOpts) 
 		res = "unsat"
 	case first == "sat":
 		res = "sat"
+	case first == "unknown":
+		res = "unknown"
 	case first == "timeout" || strings.Contains(first, "timeout") || cctx.Err() != nil:
 		res = "timeout"
 	case strings.HasPrefix(first, "(error") || strings.Contains(text, "(error"):
@@ -76,8 +78,8 @@ func runSolver(ctx context.Context, sp solverSpec, file string, opts solveOpts) 
 
 // solveOne races the solvers on one obligation.
 func solveOne(o *Obligation, idx int, opts solveOpts) {
-	if o.Script == "" && o.Result != "" {
-		return
+	if o.Result != "" {
+		return // trivial, or already decided in a Houdini round
 	}
 	script := o.vc.finalScript(o, true)
 	if o.ExpectSat && opts.timeoutS > 3 {
